@@ -307,7 +307,7 @@ pub fn ddmin<T: Clone>(mut items: Vec<T>, budget: &mut usize, mut test: impl FnM
             n = (n * 2).min(items.len());
         }
     }
-    if items.len() == 1 && *budget > 0 {
+    if items.len() == 1 && *budget > 0 && !minimisation_expired() {
         *budget -= 1;
         if test(&[]) {
             items.clear();
